@@ -335,6 +335,9 @@ type vfCHOpt struct {
 	SessionID []byte
 	Suites    []uint16
 	Mutate    func(*clientHelloMsg)
+	// MutateBody rewrites the marshalled ClientHello body (the hello that carries the cookie on the
+	// datagram stack); the message is re-framed so that the outer length is correct.
+	MutateBody func([]byte) []byte
 }
 
 // SendClientHello sends the ClientHello (datagram stack: including the cookie exchange) and reads
@@ -355,7 +358,7 @@ func (p *vfCliPeer) SendClientHello(o vfCHOpt) error {
 		o.Mutate(hello)
 	}
 	p.hello = hello
-	sh, err := vfPeerHelloExchange(c, hello)
+	sh, err := vfPeerHelloExchange(c, hello, o.MutateBody)
 	if err != nil {
 		return err
 	}
@@ -579,3 +582,9 @@ func vfPeerBareCCS(c *Conn) error {
 
 // vfNullCipher is a placeholder so that changeCipherSpec succeeds on a plaintext connection.
 type vfNullCipher struct{}
+
+// vfPeerEmptyRecord sends a protected record with an empty plaintext (the library's writer never
+// produces one).
+func vfPeerEmptyRecord(c *Conn, typ recordType) error {
+	return vfPeerWriteOne(c, typ, nil)
+}
